@@ -105,6 +105,9 @@ def zero_divisor_witness(it, free=lambda name: True, limit=4000):
     return None
 
 
+ALLOW_SIZE_THRESHOLDS = False     # second pass of `across_thresholds`: the small side of every threshold is being examined on purpose
+
+
 def run_obligation(pkg, fn, hook=None, max_paths=256, allow_size_thresholds=False, divisors=None):
     """fn(it) -> stats dict, or raises ObFail(detail).  All paths are explored; every path must succeed.
 
@@ -128,7 +131,7 @@ def run_obligation(pkg, fn, hook=None, max_paths=256, allow_size_thresholds=Fals
                     if w:
                         raise ObFail(w)
                 thr = [e for e in it.events if e[0] == "size-threshold"]
-                if thr and not allow_size_thresholds:
+                if thr and not (allow_size_thresholds or ALLOW_SIZE_THRESHOLDS):
                     raise Unsupported("the behaviour depends on the size of a collection (%s): a finite scenario cannot speak for larger "
                                       "inputs" % thr[0][1])
                 return ("ok", res, True)
@@ -214,6 +217,37 @@ def run_tasks(pkg, tasks, jobs=None):
         for i, res in pool.imap_unordered(_worker, range(len(tasks))):
             out[i] = res
     return out
+
+
+THRESHOLD_MARK = "a finite scenario cannot speak for larger inputs"
+
+
+def across_thresholds(run, pkg, tasks, results, directed):
+    """Scenarios that are undecided only because the code tests a size against a constant are decided after all when scenarios aimed
+    at the other side of every such constant hold: `directed(consts)` builds those; the undecided ones are then re-run with the
+    threshold allowed (they are, knowingly, on the small side).  Returns (results, extra tasks, extra results)."""
+    global ALLOW_SIZE_THRESHOLDS
+    idx = [i for i, r in enumerate(results) if r.get("status") == "error" and THRESHOLD_MARK in r.get("detail", "")]
+    if not idx:
+        return results, [], []
+    consts = [c for c in size_constants([results[i] for i in idx]) if c <= 120][:2]
+    if not consts:
+        return results, [], []
+    extra = directed(consts)
+    eres = run_tasks(pkg, extra) if extra else []
+    if not extra or any(r.get("status") != "ok" for r in eres):
+        return results, extra, eres
+    ALLOW_SIZE_THRESHOLDS = True
+    try:
+        again = run_tasks(pkg, [tasks[i] for i in idx])
+    finally:
+        ALLOW_SIZE_THRESHOLDS = False
+    results = list(results)
+    for i, r in zip(idx, again):
+        if r.get("status") == "ok":
+            r.setdefault("stats", {})["size_thresholds"] = "decided on both sides of the constants %s" % consts
+        results[i] = r
+    return results, extra, eres
 
 
 def record(run, tasks, results):
